@@ -1,5 +1,114 @@
-(** * Props/C01.v — placeholder until ManagerProofs.v lands; replaced below. *)
-From CV Require Import Chain.Manager.
-Theorem C01_init_tip : tip init = genesis.
-Proof. exact eq_refl. Qed.
-Print Assumptions C01_init_tip.
+(** * Props/C01.v — Best chain is always fully valid, heaviest-known, and never loses work.
+    Only the property theorems; each is closed by [exact] and followed by Print Assumptions.
+    All statements are about the manager model [Chain/Manager.v] that the harness validates
+    against the real chain.Manager after every call; they quantify over every well-formed
+    universe [U] (record [WF]) and every operation list [ops] whose AddValidated batches
+    satisfy the documented precondition ([ops_pre] / [validated_pre]). *)
+From Coq Require Import NArith ZArith List.
+From stdpp Require Import gmap.
+From CV Require Import Chain.Manager Chain.ManagerProofs.
+Import ListNotations.
+Open Scope N_scope.
+
+(** The inductive invariant [MInv] (five conjuncts, see Chain/ManagerProofs.v) holds in
+    every reachable state. *)
+Theorem C01_best_chain_inv :
+  ∀ U, WF U → ∀ ops, ops_pre U ops → MInv U (mrun U ops).
+Proof. exact best_chain_inv. Qed.
+Print Assumptions C01_best_chain_inv.
+
+(** Hence the reported chain is parent-linked from its tip down to genesis
+    ([chain]: every element is a non-genesis block of [U] whose parent is the next element,
+    the last element is genesis), and every block on it is valid and has a full state. *)
+Theorem C01_best_chain_linked_valid :
+  ∀ U, WF U → ∀ ops, ops_pre U ops →
+    chain U (best (mrun U ops)) ∧
+    ∀ b, b ∈ best (mrun U ops) →
+      valid U b ∧ ∃ k, known (mrun U ops) !! b = Some k ∧ kst k = Some SFull.
+Proof. exact best_chain_linked_valid. Qed.
+Print Assumptions C01_best_chain_linked_valid.
+
+(** No reachable call panics: the nil-supplement dereference in revertTip, the
+    "non-attaching block" panic in applyTip and "failed to revert failed reorg" are
+    unreachable. *)
+Theorem C01_no_panic :
+  ∀ U, WF U → ∀ ops, ops_pre U ops → ∀ o, op_pre U o →
+    (mstep U (mrun U ops) o).1.2 ≠ Panic.
+Proof. exact no_panic. Qed.
+Print Assumptions C01_no_panic.
+
+(** A block whose header or body is invalid is never on the best chain. *)
+Theorem C01_invalid_never_adopted :
+  ∀ U, WF U → ∀ ops, ops_pre U ops → ∀ b B,
+    b ∈ best (mrun U ops) → b ≠ genesis → U !! b = Some B →
+    hdr_ok B = true ∧ body_ok B = true.
+Proof. exact invalid_never_adopted. Qed.
+Print Assumptions C01_invalid_never_adopted.
+
+(** The crux: whenever a reorg from a reachable state fails part-way (some reverts, then
+    some applies, then an error), reorging back to the old tip succeeds and restores the
+    best chain exactly, without touching the store. *)
+Theorem C01_rollback_exact :
+  ∀ U, WF U → ∀ ops, ops_pre U ops → ∀ target m1,
+    reorg_to U (mrun U ops) target = (m1, Err) →
+    reorg_to U m1 (tip (mrun U ops)) = (Mgr (known m1) (best (mrun U ops)), Ok).
+Proof. exact rollback_exact_reachable. Qed.
+Print Assumptions C01_rollback_exact.
+
+(** A failed AddBlocks leaves the best chain and the store record of every block on it
+    exactly as before, and notifies nobody. *)
+Theorem C01_failed_op_is_noop_on_chain :
+  ∀ U, WF U → ∀ ops, ops_pre U ops → ∀ l m' nt,
+    mstep U (mrun U ops) (AddBlocks l) = (m', Err, nt) →
+    nt = false ∧ best m' = best (mrun U ops) ∧
+    ∀ b, b ∈ best (mrun U ops) → known m' !! b = known (mrun U ops) !! b.
+Proof. exact failed_addblocks_noop. Qed.
+Print Assumptions C01_failed_op_is_noop_on_chain.
+
+(** A failed AddValidatedV2Blocks leaves the best chain as before; the only thing that
+    can change for a best-chain block is that a submitted block's (pruned) body is stored
+    again, together with its supplement and full state. *)
+Theorem C01_failed_validated_is_noop_on_chain :
+  ∀ U, WF U → ∀ ops, ops_pre U ops → ∀ l m' nt, validated_pre U l →
+    mstep U (mrun U ops) (AddValidated l) = (m', Err, nt) →
+    nt = false ∧ best m' = best (mrun U ops) ∧
+    ∀ b, b ∈ best (mrun U ops) →
+      known m' !! b = known (mrun U ops) !! b ∨
+      (b ∈ l ∧ known m' !! b = Some (KI (Some SFull) true true)).
+Proof. exact failed_addvalidated_noop. Qed.
+Print Assumptions C01_failed_validated_is_noop_on_chain.
+
+(** AddBlocks / AddValidatedV2Blocks only grow the store: no entry disappears, no body
+    or supplement is dropped, no state is lost or downgraded from full to header-derived;
+    and a supplement is only ever stored for a valid block. *)
+Theorem C01_known_monotone :
+  ∀ U, WF U → ∀ ops, ops_pre U ops → ∀ o m' out nt, op_pre U o → (∀ h, o ≠ Prune h) →
+    mstep U (mrun U ops) o = (m', out, nt) →
+    (∀ b k, known (mrun U ops) !! b = Some k →
+       ∃ k', known m' !! b = Some k' ∧
+         (kbody k = true → kbody k' = true) ∧ (ksupp k = true → ksupp k' = true) ∧
+         (kst k = Some SFull → kst k' = Some SFull) ∧ (is_Some (kst k) → is_Some (kst k'))) ∧
+    (∀ b k', known m' !! b = Some k' → ksupp k' = true →
+       kbody k' = true ∧ kst k' = Some SFull ∧ valid U b).
+Proof. exact known_monotone. Qed.
+Print Assumptions C01_known_monotone.
+
+(** The tip's total work never decreases; the tip changes only to a block sufficiently
+    heavier than the old tip; every block of the new best chain was already stored or is
+    in the submitted batch. *)
+Theorem C01_work_monotone :
+  ∀ U, WF U → ∀ ops, ops_pre U ops → ∀ o m' out nt, op_pre U o →
+    mstep U (mrun U ops) o = (m', out, nt) →
+    (twof U (tip (mrun U ops)) ≤ twof U (tip m'))%Z ∧
+    (tip m' ≠ tip (mrun U ops) → heavier U (tip m') (tip (mrun U ops)) = true) ∧
+    (∀ b, b ∈ best m' → has_hdr (mrun U ops) b = true ∨ b ∈ batch_of o).
+Proof. exact work_monotone. Qed.
+Print Assumptions C01_work_monotone.
+
+(** Listeners are notified exactly when the tip changed. *)
+Theorem C01_notify_iff_tip_changed :
+  ∀ U, WF U → ∀ ops, ops_pre U ops → ∀ o m' out nt, op_pre U o →
+    mstep U (mrun U ops) o = (m', out, nt) →
+    (nt = true ↔ tip m' ≠ tip (mrun U ops)).
+Proof. exact notify_iff_tip_changed. Qed.
+Print Assumptions C01_notify_iff_tip_changed.
